@@ -44,7 +44,8 @@ def gen(rng, tier, i):
     script = cgen.gen_script(rng, max_gates=rng.choice([8, 16, 30, 40]), max_in=6, max_ff=3)
     if rng.random() < 0.03: script = {'net': 'b01'}
     if r < 0.72:
-        return {'mode': 'map', 'script': script, 'flavour': rng.choice(['wave', 'wave', 'logic']), 'caps': wavegen.gen_caps(rng, p_fault=0.7),
+        return {'mode': 'map', 'script': script, 'flavour': rng.choice(['wave', 'wave', 'logic', 'generic']), 'caps': wavegen.gen_caps(rng, p_fault=0.7),
+                'caps_min': rng.choice([1, 2, 4, 8]), 'small_caps': [rng.choice([1, 2, 3, 4, 8, 16]) for _ in range(rng.randint(1, 9))],
                 'knobs': [[a, b] for a in (False, True) for b in (False, True)], 'order_seed': rng.randrange(1 << 20),
                 'actrl': wavegen.gen_actrl(rng, p=0.2)}
     sims = rng.randint(1, 4)
@@ -54,11 +55,14 @@ def gen(rng, tier, i):
             'poison': {'vals': [rng.choice([0, 1, 2.5, 7, 11.25, 40, 100, float(wsim.TMIN), float(wsim.TMAX), float(wsim.TMAX_OVL), -3]) for _ in range(rng.randint(3, 11))]}}
 
 
-def make_simops(circuit, flavour, caps, c_reuse, strip_forks, actrl=None):
+def make_simops(circuit, flavour, caps, c_reuse, strip_forks, actrl=None, case=None):
     import kyupy.sim as ksim
     nl = len(circuit.lines)
     if flavour == 'logic':
         return ksim.SimOps(circuit, c_reuse=c_reuse, strip_forks=strip_forks)
+    if flavour == 'generic':      # SimOps used directly: any capacities, any minimum (capacities below the minimum are raised to it)
+        sc = case['small_caps']
+        return ksim.SimOps(circuit, c_caps=[int(sc[l % len(sc)]) for l in range(nl + 3)], c_caps_min=int(case['caps_min']), c_reuse=c_reuse, strip_forks=strip_forks)
     if caps is None: cc = 16
     elif caps.get('vec') is None: cc = int(caps.get('default', 16))
     else:
@@ -70,7 +74,7 @@ def make_simops(circuit, flavour, caps, c_reuse, strip_forks, actrl=None):
 def exec_map(case, res):
     built = cgen.build(case['script'])
     for c_reuse, strip in case['knobs']:
-        so = make_simops(built.circuit, case['flavour'], case['caps'], c_reuse, strip)
+        so = make_simops(built.circuit, case['flavour'], case['caps'], c_reuse, strip, case=case)
         res.log.add('map', c_reuse, strip, int(so.c_len), wsim.crc(np.asarray(so.c_locs)), wsim.crc(np.asarray(so.ops)))
         meta = tokens.check_simops(so, built.circuit, [case['order_seed']], res, strip, label=f'c_reuse={c_reuse} strip_forks={strip}: ')
         res.count('maps')
